@@ -44,12 +44,21 @@ def main():
     if out.strip():
         sys.exit("/repo has uncommitted changes; refusing")
 
+    skip_confirm = os.environ.get("SEED_SKIP_CONFIRM") == "1" and (VERIF / "seeded" / sid / "meta.json").exists()
+    if skip_confirm:
+        old_meta = json.loads((VERIF / "seeded" / sid / "meta.json").read_text())
+        for k in ("demo_without_patch_exit", "patch_applies", "tests_with_patch_exit", "tests_with_patch_tail", "demo_with_patch_exit", "demo_with_patch_tail", "confirmed"):
+            if k in old_meta:
+                meta[k] = old_meta[k]
     wt = Path(f"/tmp/wt/verify_{sid}")
     if wt.exists():
         sh(f"git -C /repo worktree remove --force {wt}")
-    rc, out = sh(f"git -C /repo worktree add --detach {wt} HEAD")
-    assert rc == 0, out
+    if not skip_confirm:
+        rc, out = sh(f"git -C /repo worktree add --detach {wt} HEAD")
+        assert rc == 0, out
     try:
+        if skip_confirm:
+            raise StopIteration
         env = {"PYTHONPATH": f"{wt}/src", "PYTHONDONTWRITEBYTECODE": "1"}
         rc0, out0 = sh(f"{PY} {demo}", cwd=wt, env=env, timeout=900)
         meta["demo_without_patch_exit"] = rc0
@@ -67,8 +76,11 @@ def main():
             rc1, out1 = sh(f"{PY} {demo}", cwd=wt, env=env, timeout=900)
             meta["demo_with_patch_exit"] = rc1
             meta["demo_with_patch_tail"] = out1.strip().splitlines()[-3:]
+    except StopIteration:
+        pass
     finally:
-        sh(f"git -C /repo worktree remove --force {wt}")
+        if not skip_confirm:
+            sh(f"git -C /repo worktree remove --force {wt}")
     confirmed = (
         meta.get("patch_applies")
         and meta.get("demo_without_patch_exit") == 0
@@ -110,10 +122,12 @@ def main():
     ]
     dst = VERIF / "seeded" / sid
     dst.mkdir(parents=True, exist_ok=True)
-    shutil.copy(patch, dst / "patch.diff")
-    shutil.copy(demo, dst / "demo.py")
+    if src.resolve() != dst.resolve():
+        shutil.copy(patch, dst / "patch.diff")
+        shutil.copy(demo, dst / "demo.py")
     if (src / "notes.md").exists():
-        shutil.copy(src / "notes.md", dst / "notes.md")
+        if src.resolve() != dst.resolve():
+            shutil.copy(src / "notes.md", dst / "notes.md")
         notes = (src / "notes.md").read_text()
         meta["needs_to_manifest"] = "see notes.md"
     old = {}
